@@ -343,6 +343,31 @@ func c13Life(c *mon.Ctx, r *mon.Rand) {
 	}
 	perProd := r.Range(1, 300)
 	idents := genM3Idents(r, nIdents)
+	// a third of the lifetimes: up to six identities get a twin whose tags repeat
+	// common tags of the reporter, name and value (env, and every configured
+	// common tag): a metric's tags are its own, whatever the batch carries
+	if r.Chance(1, 3) {
+		n := len(idents)
+		if n > 6 {
+			n = 6
+		}
+		for i := 0; i < n; i++ {
+			tw := idents[i]
+			tw.Tags = copyTagMap(tw.Tags)
+			if tw.Tags == nil {
+				tw.Tags = map[string]string{}
+			}
+			tw.Tags["env"] = "test"
+			for k, v := range common {
+				if i%2 == 0 || len(k) > 2 {
+					tw.Tags[k] = v
+				}
+			}
+			idents = append(idents, tw)
+		}
+		nIdents = len(idents)
+		c.Class("lifetimes-with-metric-tags-repeating-common-tags", 1)
+	}
 	// every twelfth lifetime allocates more distinct tag sets than the reporter's
 	// pools and caches hold (4096 pooled tag slices), each reported at least once
 	// at the end by the first producer - the earliest ones included
